@@ -95,18 +95,50 @@ func LoadProgram(tags string) (*Program, error) {
 	if err != nil {
 		return nil, err
 	}
-	nerr := 0
-	packages.Visit(pkgs, nil, func(p *packages.Package) {
-		for _, e := range p.Errors {
-			if nerr < 20 {
-				fmt.Fprintln(os.Stderr, "load error:", e)
+	collect := func() (n int, onlyReplay bool, files map[string]bool, first string) {
+		onlyReplay = true
+		files = map[string]bool{}
+		packages.Visit(pkgs, nil, func(p *packages.Package) {
+			for _, e := range p.Errors {
+				n++
+				if first == "" {
+					first = e.Error()
+				}
+				f := e.Pos
+				if i := strings.Index(f, ":"); i >= 0 {
+					f = f[:i]
+				}
+				if filepath.Base(f) == "zz_verif_replay.go" {
+					files[f] = true
+				} else {
+					onlyReplay = false
+				}
 			}
-			nerr++
-		}
-	})
-	if nerr > 0 {
-		return nil, fmt.Errorf("%d package load errors", nerr)
+		})
+		return
 	}
+	nerr, onlyReplay, badFiles, first := collect()
+	replayDisabled := false
+	if nerr > 0 && onlyReplay && len(badFiles) > 0 {
+		// only the replay builders (test scaffolding that names struct fields) no longer compile: verify
+		// without them - counterexamples of the affected package are then not replayed
+		cfg.Overlay = map[string][]byte{}
+		for f := range badFiles {
+			cfg.Overlay[f] = []byte("//go:build verif\n\npackage " + filepath.Base(filepath.Dir(f)) + "\n")
+		}
+		fmt.Fprintln(os.Stderr, "note: replay builders disabled (they do not compile against this tree):", first)
+		pkgs, err = packages.Load(cfg, repoPkgs...)
+		if err != nil {
+			return nil, err
+		}
+		nerr, _, _, first = collect()
+		replayDisabled = true
+	}
+	if nerr > 0 {
+		fmt.Fprintln(os.Stderr, "load error:", first)
+		return nil, fmt.Errorf("%d package load errors, first: %s", nerr, first)
+	}
+	_ = replayDisabled
 	prog, spkgs := ssautil.AllPackages(pkgs, ssa.NaiveForm|ssa.GlobalDebug|ssa.InstantiateGenerics)
 	prog.Build()
 	p := &Program{RepoDir: dir, Scratch: scratch, Pkgs: pkgs, SSA: prog, SSAPkgs: map[string]*ssa.Package{}, ByPath: map[string]*packages.Package{}}
